@@ -5,7 +5,7 @@
 
    Inputs are JSON-ish values [jv]; results are Python values [pv] or an error
    class.  Functions of the standard library / third parties that the library
-   merely CALLS are fields of the record [oracles], a Section variable: float(s),
+   merely CALLS are fields of the record [oracles], a Section variable:
    str(float|list|dict), datetime/date/time.fromisoformat, fromtimestamp,
    pytimeparse.parse, timedelta(seconds=), Decimal(str), b64decode, json.loads.
    For execution the harness passes finite tables computed by the real
@@ -13,27 +13,19 @@
    [EMissing], never a default.
 
    Modelled concretely (standard library, ASCII input): int(str) for decimal
-   strings (surrounding whitespace, sign, single underscores between digits),
-   round() half-to-even and float.is_integer() on exact dyadic floats, str(int),
-   str.strip/lstrip/split/lower/isdigit/replace(old,new,1).
+   strings (surrounding C whitespace, sign, single underscores between digits),
+   float(str) and float(int) with the correct rounding of binary64 (CoerceFloat.v:
+   which strings take the detour through float and what precision that costs is
+   part of the model), round() half-to-even and float.is_integer() on exact dyadic
+   floats, str(int), str.strip/lstrip/split/lower/isdigit/replace(old,new,1).
 
    Not modelled: non-ASCII strings (the harness feeds ASCII), -0.0 (identified
-   with 0.0), int strings above sys.int_max_str_digits, float(int) above 2^53,
+   with 0.0), int strings above sys.int_max_str_digits,
    sets / NamedTuple / TypedDict / Union / nested dataclasses, the open defect
    F18 (v1 fixed tuple directly inside a fixed tuple). *)
 From DW Require Import PyStr T_Truthy.
+From DW Require Export CoerceFloat.
 From Coq Require Import DecimalString DecimalZ.
-
-(* ---- results ------------------------------------------------------------ *)
-Inductive err := EType | EValue | EOverflow | EOther | EMissing.
-Inductive res (A : Type) := Ok (a : A) | Err (e : err).
-Arguments Ok {A} a.
-Arguments Err {A} e.
-
-Definition bind {A B} (r : res A) (f : A -> res B) : res B :=
-  match r with Ok a => f a | Err e => Err e end.
-Definition rmap {A B} (f : A -> B) (r : res A) : res B :=
-  match r with Ok a => Ok (f a) | Err e => Err e end.
 
 Fixpoint mapM {A B} (f : A -> res B) (l : list A) : res (list B) :=
   match l with
@@ -57,70 +49,6 @@ Fixpoint idxM {A B T} (f : T -> A -> res B) (ts : list T) (l : list A) : res (li
       | [] => Err EOther
       | x :: l' => bind (f t x) (fun y => bind (idxM f ts' l') (fun ys => Ok (y :: ys)))
       end
-  end.
-
-(* ---- floats: exact dyadics m * 2^e ------------------------------------ *)
-Inductive fl := FDy (m e : Z) | FInf (neg : bool) | FNan.
-
-Fixpoint strip2 (p : positive) : positive * Z :=
-  match p with
-  | xO q => let (r, k) := strip2 q in (r, (k + 1)%Z)
-  | _ => (p, 0%Z)
-  end.
-
-(* canonical form: odd mantissa, or 0 * 2^0 *)
-Definition fl_norm (f : fl) : fl :=
-  match f with
-  | FDy Z0 _ => FDy 0 0
-  | FDy (Zpos p) e => let (r, k) := strip2 p in FDy (Zpos r) (e + k)
-  | FDy (Zneg p) e => let (r, k) := strip2 p in FDy (Zneg r) (e + k)
-  | _ => f
-  end.
-
-Definition fl_eqb (a b : fl) : bool :=
-  match fl_norm a, fl_norm b with
-  | FDy m e, FDy m' e' => Z.eqb m m' && Z.eqb e e'
-  | FInf x, FInf y => Bool.eqb x y
-  | FNan, FNan => true
-  | _, _ => false
-  end.
-
-(* float.is_integer() *)
-Definition fl_is_integer (f : fl) : bool :=
-  match f with
-  | FDy m e => if (0 <=? e)%Z then true else Z.eqb (m mod 2 ^ (- e)) 0
-  | _ => false
-  end.
-
-(* int(f) for a float: truncation towards zero *)
-Definition fl_trunc (f : fl) : res Z :=
-  match f with
-  | FDy m e => if (0 <=? e)%Z then Ok (m * 2 ^ e)%Z else Ok (Z.quot m (2 ^ (- e)))
-  | FInf _ => Err EOverflow
-  | FNan => Err EValue
-  end.
-
-(* round(f): nearest integer, ties to even *)
-Definition fl_round (f : fl) : res Z :=
-  match f with
-  | FDy m e =>
-      if (0 <=? e)%Z then Ok (m * 2 ^ e)%Z
-      else
-        let d := (2 ^ (- e))%Z in
-        let q := (m / d)%Z in
-        let r := (m mod d)%Z in
-        if (2 * r <? d)%Z then Ok q
-        else if (d <? 2 * r)%Z then Ok (q + 1)%Z
-        else if Z.even q then Ok q else Ok (q + 1)%Z
-  | FInf _ => Err EOverflow
-  | FNan => Err EValue
-  end.
-
-(* f == z for a float and an int *)
-Definition fl_eq_Z (f : fl) (z : Z) : bool :=
-  match f with
-  | FDy m e => if (0 <=? e)%Z then Z.eqb (m * 2 ^ e) z else Z.eqb m (z * 2 ^ (- e))
-  | _ => false
   end.
 
 (* ---- JSON-ish inputs, Python outputs --------------------------------- *)
@@ -193,17 +121,6 @@ Definition jv_py_eqb (a b : jv) : bool :=
   end.
 
 (* ---- str methods on ASCII -------------------------------------------- *)
-Definition is_ws (c : ascii) : bool :=
-  let n := code c in ((9 <=? n)%N && (n <=? 13)%N) || ((28 <=? n)%N && (n <=? 32)%N).
-
-Fixpoint lstrip (s : pstr) : pstr :=
-  match s with
-  | c :: r => if is_ws c then lstrip r else s
-  | [] => []
-  end.
-Definition rstrip (s : pstr) : pstr := rev (lstrip (rev s)).
-Definition strip (s : pstr) : pstr := rstrip (lstrip s).
-
 (* str.split(sep) for a one-character separator: never returns [] *)
 Fixpoint split_on (sep : ascii) (s : pstr) : list pstr :=
   match s with
@@ -250,7 +167,7 @@ Fixpoint int_body (acc : Z) (prev_digit : bool) (s : pstr) : option Z :=
 Definition py_int_of_str (s : pstr) : res Z :=
   let body (t : pstr) : res Z :=
     match int_body 0 false t with Some z => Ok z | None => Err EValue end in
-  match strip s with
+  match cstrip s with
   | [] => Err EValue
   | c :: r =>
       if ascii_eqb c c_dash then rmap Z.opp (body r)
@@ -287,7 +204,6 @@ Definition is_opt (t : ty) : bool := match t with TOpt _ => true | _ => false en
 
 (* ---- oracles ------------------------------------------------------------- *)
 Record oracles := {
-  o_float_of_str : pstr -> res fl;            (* float(s) *)
   o_str : jv -> res pstr;                     (* str(o) for float / list / dict *)
   o_dt_iso : pstr -> res pstr;                (* datetime.fromisoformat(s).isoformat() *)
   o_date_iso : pstr -> res pstr;
@@ -356,7 +272,7 @@ Definition as_int (j : jv) : res Z :=
       match s with
       | [] => Ok 0%Z
       | _ => if contains_char c_dot s
-             then bind (o_float_of_str O s) fl_round
+             then bind (py_float_of_str s) fl_round
              else py_int_of_str s
       end
   | JFloat f => fl_round f
@@ -381,7 +297,7 @@ Definition load_int_v1 (j : jv) : res Z :=
   | JInt z => Ok z
   | JStr s =>
       if contains_char c_dot s
-      then bind (o_float_of_str O s)
+      then bind (py_float_of_str s)
                 (fun f => if fl_is_integer f then fl_trunc f else py_int_of_str s)
       else py_int_of_str s
   | _ => as_int_v1 j
@@ -391,9 +307,9 @@ Definition load_int_v1 (j : jv) : res Z :=
 Definition py_float (j : jv) : res fl :=
   match j with
   | JFloat f => Ok f
-  | JInt z => if (Z.abs z <=? 2 ^ 53)%Z then Ok (FDy z 0) else Err EMissing
+  | JInt z => fl_of_Z z
   | JBool b => Ok (FDy (if b then 1 else 0) 0)
-  | JStr s => o_float_of_str O s
+  | JStr s => py_float_of_str s
   | _ => Err EType
   end.
 
@@ -465,7 +381,7 @@ Definition load_datetime_env (j : jv) : res pstr :=
   match j with
   | JStr s =>
       if numeric_form s
-      then bind (o_float_of_str O s) (fun f => o_dt_fromts O true (NFloat f))
+      then bind (py_float_of_str s) (fun f => o_dt_fromts O true (NFloat f))
       else o_dt_iso O (z_rewrite s)
   | _ => as_datetime j
   end.
@@ -474,7 +390,7 @@ Definition load_date_env (j : jv) : res pstr :=
   match j with
   | JStr s =>
       if numeric_form s
-      then bind (o_float_of_str O s) (fun f => o_date_fromts O (NFloat f))
+      then bind (py_float_of_str s) (fun f => o_date_fromts O (NFloat f))
       else o_date_iso O s
   | _ => as_date j
   end.
@@ -484,7 +400,7 @@ Definition as_timedelta (j : jv) : res pstr :=
   match j with
   | JStr s =>
       if numeric_form s
-      then bind (o_float_of_str O s) (fun f => o_timedelta O (NFloat f))
+      then bind (py_float_of_str s) (fun f => o_timedelta O (NFloat f))
       else bind (o_timeparse O s)
                 (fun r => match r with
                           | Some x => o_timedelta O x
@@ -710,13 +626,12 @@ Definition tbld {A} (dom : list pstr) (dflt : err) (l : list (pstr * res A)) (k 
   end.
 
 Definition tbl_oracles (dom : list pstr)
-  (t_float : list (pstr * res fl)) (t_str : list (jv * res pstr))
+  (t_str : list (jv * res pstr))
   (t_dt_iso t_date_iso t_time_iso : list (pstr * res pstr))
   (t_dt_ts_utc t_dt_ts_local t_date_ts : list (num * res pstr))
   (t_timeparse : list (pstr * res (option num))) (t_timedelta : list (num * res pstr))
   (t_decimal t_b64 : list (pstr * res pstr)) (t_json : list (pstr * res jv)) : oracles :=
-  {| o_float_of_str := tbld dom EValue t_float;
-     o_str := tbl jv_eqb t_str;
+  {| o_str := tbl jv_eqb t_str;
      o_dt_iso := tbld dom EValue t_dt_iso;
      o_date_iso := tbld dom EValue t_date_iso;
      o_time_iso := tbld dom EValue t_time_iso;
@@ -767,6 +682,9 @@ Definition show_res (r : res pv) : pstr :=
 
 Definition show_resZ (r : res Z) : pstr :=
   match r with Ok z => S "O" ++ show_Z z | Err e => show_err e end.
+
+Definition show_resF (r : res fl) : pstr :=
+  match r with Ok f => S "O" ++ show_fl f | Err e => show_err e end.
 
 (* a JSON value seen as the Python value it already is (harness: results of as_list / as_dict) *)
 Fixpoint pv_of_jv (j : jv) : pv :=
